@@ -190,6 +190,32 @@ def factory_run(fn):
     return "decide (%s)" % expr(branch.test, {"supply": "supply", "demand": "demand"})
 
 
+def sleeps_first(fn):
+    """a periodic `run`: one `while True` loop whose body contains exactly one `await trio.sleep(<period>)`,
+    as its first statement (sleep, then act) or as its last one (act, then sleep)"""
+    tree = ast.parse(textwrap.dedent(inspect.getsource(fn))).body[0]
+    loops = [st for st in tree.body if isinstance(st, ast.While)]
+    if len(loops) != 1 or not (isinstance(loops[0].test, ast.Constant) and loops[0].test.value is True) or loops[0].orelse:
+        raise Untranslatable("not a single `while True` loop")
+    if any(isinstance(n, (ast.Break, ast.Return)) for n in ast.walk(loops[0])):
+        raise Untranslatable("the loop can be left")
+    body_ = loops[0].body
+
+    def is_sleep(st):
+        return (isinstance(st, ast.Expr) and isinstance(st.value, ast.Await) and isinstance(st.value.value, ast.Call)
+                and ast.unparse(st.value.value.func) == "trio.sleep" and len(st.value.value.args) == 1
+                and ast.unparse(st.value.value.args[0]) in ("self.interval", "interval", "self.window"))
+    idx = [i for i, st in enumerate(body_) if is_sleep(st)]
+    awaits = [n for n in ast.walk(loops[0]) if isinstance(n, ast.Await)]
+    if len(idx) != 1 or len(awaits) != 1:
+        raise Untranslatable("not exactly one sleep of one period per iteration")
+    if idx[0] == 0 and len(body_) > 1:
+        return "true"
+    if idx[0] == len(body_) - 1 and len(body_) > 1:
+        return "false"
+    raise Untranslatable("the sleep is neither first nor last")
+
+
 def strs_lean(l):
     return "[" + ", ".join('"%s"' % x.replace("\\", "\\\\").replace('"', '\\"') for x in l) + "]"
 
@@ -217,7 +243,7 @@ def render():
     from cobald.controller.relative_supply import RelativeSupplyController
     from cobald.monitor import format_line
     out = ["/- GENERATED by harness/vh/translate.py from the source text of /repo — do not edit.",
-           "   Regenerated on every run of the checks that depend on it (C06 C08 C13 C15 C17); the theorems `gen_*` in",
+           "   Regenerated on every run of the checks that depend on it (C06 C08 C09 C13 C15 C17); the theorems `gen_*` in",
            "   their Props files equate these definitions with the hand-written models and are thereby",
            "   re-checked against what the code says now. -/",
            "import CobaldVerif.Model.Num", "", "namespace Cobald.Gen", "open Cobald Cobald.ERat", ""]
@@ -251,6 +277,12 @@ def render():
     emit("escapeFieldPairs", "", "List (Char × List Char)", lambda: chain_of(format_line.escape_field, 0, 1))
     emit("escapeNamePairs", "", "List (Char × List Char)", lambda: chain_of(format_line.line_protocol, 0, 1))
     from cobald.composite.factory import FactoryPool
+    from cobald.controller.switch import DemandSwitch
+    from cobald.controller.stepwise import Stepwise
+    from cobald.decorator.buffer import Buffer
+    for nm, cls in (("Linear", LinearController), ("Rel", RelativeSupplyController), ("Switch", DemandSwitch),
+                    ("Stepwise", Stepwise), ("Buffer", Buffer), ("Factory", FactoryPool)):
+        emit("sleepsFirst" + nm, "", "Bool", lambda cls=cls: sleeps_first(cls.run))
     emit("factoryShrinks", "(supply demand : Rat)", "Bool", lambda: factory_run(FactoryPool.run))
     import cobald.daemon.core.config as core_config
     emit("dispatchYaml", "", "List String", lambda: strs_lean(dispatch_table(core_config.load)["yaml"]))
